@@ -72,6 +72,7 @@ type interpreter struct {
 	maxSteps   int64
 	sched      *scheduler
 	side       map[any]any // per-path side tables (mutex state etc.)
+	scalePkg   []pkgScale
 	env        map[string]value
 	cfg        *harnessCfg
 
@@ -138,6 +139,15 @@ func (fr *frame) get(key ssa.Value) value {
 	case *ssa.Function, *ssa.Builtin:
 		return key
 	case *ssa.Const:
+		if fr.i.scalePkg != nil && key.Value != nil && fr.fn.Pkg != nil {
+			if b, ok := key.Type().Underlying().(*types.Basic); ok && b.Info()&types.IsInteger != 0 {
+				for _, ps := range fr.i.scalePkg {
+					if fr.fn.Pkg.Pkg.Path() == ps.pkg && b.Name() == ps.typ && key.Int64() == ps.from {
+						return valueOfBits(b.Kind(), uint64(ps.to))
+					}
+				}
+			}
+		}
 		if fr.i.scale != nil {
 			if sc := fr.i.scale[fr.fn]; sc != nil && key.Value != nil {
 				if b, ok := key.Type().Underlying().(*types.Basic); ok && b.Info()&types.IsInteger != 0 {
